@@ -9,8 +9,15 @@ is a registered category of the row's quantity type; every category's default un
 of the category's quantity type; no symbol or category name needs escaping) - predicates
 `UnitRow.defaultCatOk {db}`, `CatRow.defaultUnitOk {db}`, `UnitRow.symPlain`, `CatRow.namePlain`
 (tags defcat, defunit, symplain, catplain in harness/tablepreds.py).
+Quantity-first forms on every kind of quantity (caption, derived, empty): `quantity_first_agrees`,
+`created_object_holds_quantity`, `eq_needs_same_caption`, `obtained_quantity_carries_caption`; histories on a private
+database: `history_state_is_its_registrations`, `history_answers_from_registry`, `default_category_after_registration`,
+`default_category_after_unit_registration`, `forms_equal_in_every_reachable_state`.
 Tie: every unit x every category of its quantity type x every form of the four classes, on the real
-default database, against `Ctor.construct` / `createWithQuantity` / `Obj.eq` / `evalRepr`."""
+default database, against `Ctor.construct` / `createWithQuantity` / `Obj.eq` / `evalRepr`; the quantity-first forms
+over ObtainQuantity(u, c, caption) / GetUnknownQuantity / Quantity(c, u, caption) / derived / empty quantities; and
+histories (registrations, GetDefaultCategory questions, failed constructions, groups of forms) on private
+UnitDatabase() objects against `Ctor.hstep` (one driver line per history)."""
 import numpy
 
 from common import close, err_kind, exact, qparse, qstr, sym, unsym
@@ -28,16 +35,28 @@ RULE = ("default POSC database, read only. (A) every unit (thorough; a seeded th
         "category, unit, quantity type, value, dimension) and == against the first form in both directions; "
         "eval(repr) for the Scalar cases; (B) all categories x 4 classes: category only vs default value/unit forms "
         "and the default converted into other units; (C) a malformed stream (wrong orders, missing unit, unit of "
-        "another type, unknown names, non-str arguments, legacy spellings, bad dimensions, quoting); distinct = "
-        "distinct list of forms; non-trivial = at least two forms built an object")
+        "another type, unknown names, non-str arguments, legacy spellings, bad dimensions, quoting); (D) quantity-first "
+        "forms X(q, v) / X.CreateWithQuantity(q, v) / (q, value=v) / CreateEmptyScalar / CreateEmptyArray over every kind "
+        "of quantity: ObtainQuantity(u, c, caption) on sampled units, ObtainQuantity('<unknown>', 'Unknown', caption), "
+        "units.GetUnknownQuantity(caption), ObtainQuantity(u, None, caption), derived quantities "
+        "(ObtainQuantity(OrderedDict) with 1-3 entries, with and without caption), the empty quantity, the one-entry "
+        "dict that is a simple quantity, next to the same quantity without / with another caption (== must tell them "
+        "apart), bad captions; (E) histories on a private UnitDatabase(): registrations (AddUnitBase / AddUnit / "
+        "AddCategory, accepted and rejected) interleaved with GetDefaultCategory questions, failed constructions and "
+        "groups of all forms for a unit and a category: bounded-exhaustive over a 13-step alphabet after a 2- or "
+        "3-call prefix to depth 3 (quick) / 4 (thorough) + random interleavings over the name pools of C14; every "
+        "step's outcome is compared; distinct = distinct list of forms / history; non-trivial = at least two forms "
+        "built an object (in a history: in a group that follows a registration that follows a question)")
 EXHAUSTIVE = {"quick": False, "thorough": True}
 ASSUMPTIONS = [
     "float(n) of a Python int (round to nearest even) is Python's: the harness sends n and float(n)",
     "float(s) of a str argument, repr/eval of a finite float and the parsing of a quoted literal without escapes "
     "are Python's, not modelled (the harness supplies float(s))",
     "memo tables (quantities_cache, _category_unit_valid) only replay results on a database that is not edited (C15)",
-    "arguments are None, str, finite numbers, lists/tuples of those, 1-d ndarrays, FractionValue, simple Quantity; "
-    "the third positional argument is None, a str or a number",
+    "arguments are None, str, finite numbers, lists/tuples of those, 1-d ndarrays, FractionValue, Quantity (simple "
+    "with or without unknown-unit caption, derived, empty); the third positional argument is None, a str or a number",
+    "in a history the quantities are obtained through ObtainQuantity on the private database; the module constant "
+    "units.UNKNOWN_QUANTITY (GetUnknownQuantity without caption) belongs to the default database and is only used there",
     "the converted category default (value None, unit given) and float(FractionValue) are compared within K*eps*M "
     "(also through eval(repr)), everything else exactly",
     "float() of a 1-d ndarray is a TypeError whatever its size (numpy >= 2.4); len()/tuple() of a str count bytes "
@@ -108,6 +127,18 @@ def DQ(items, cap=None):
     """ObtainQuantity(OrderedDict((category, [unit, exponent]) ...), None, caption): a derived quantity, the empty
     quantity (no items), or - one entry with exponent 1 - the simple quantity"""
     return {"dq": [[str(sym(c)), str(sym(u)), str(int(e))] for c, u, e in items], "cap": A(cap)}
+
+
+def OQL(pairs, cats, cap=None, kinds=("list", "list", "tuple")):
+    """ObtainQuantity([(unit, exponent), ...], [category, ...], caption): the unit a list/tuple of pairs (lists or
+    tuples), the category a list/tuple of names (kinds = container kinds of unit list, pairs, category list)"""
+    return {"oql": [[str(sym(u)), str(int(e))] for u, e in pairs], "cats": [str(sym(c)) for c in cats], "cap": A(cap),
+            "kinds": list(kinds)}
+
+
+def NQ(c, u, cap=None):
+    """the legacy constructor called directly: Quantity(c, u, caption) (a private instance every time)"""
+    return {"nq": [A(c), A(u), A(cap)]}
 
 
 def UNK(cap=None):
@@ -184,6 +215,15 @@ def py_arg(j):
         from barril import units
 
         return units.GetUnknownQuantity(py_atom(j["unk"]))
+    if "nq" in j:
+        from barril.units import Quantity
+
+        return Quantity(*(py_atom(x) for x in j["nq"]))
+    if "oql" in j:
+        box = {"list": list, "tuple": tuple}
+        ku, kp, kc = j.get("kinds", ["list", "tuple", "list"])
+        unit = box[ku](box[kp]((unsym(int(u)), int(e))) for u, e in j["oql"])
+        return ObtainQuantity(unit, box[kc](unsym(int(c)) for c in j["cats"]), py_atom(j.get("cap")))
     return py_atom(j)
 
 
@@ -269,6 +309,12 @@ def build(f):
         if f["cls"] == "array":
             return cls.CreateEmptyArray(values=a1) if f.get("kw") else cls.CreateEmptyArray(a1)
         return cls.CreateEmptyArray(f.get("dim", 0), values=a1) if f.get("kw") else cls.CreateEmptyArray(f.get("dim", 0), a1)
+    if f["k"] == "cwq2":
+        # the value positionally AND by keyword
+        kwargs = {"value": a3}
+        if f.get("dimkw") is not None:
+            kwargs["dimension"] = f["dimkw"]
+        return cls.CreateWithQuantity(a1, a2, **kwargs)
     if f["k"] == "cwq":
         kwargs = {}
         if f.get("dimkw") is not None:
@@ -586,6 +632,362 @@ def lit_cases(ctx, rng, n):
         yield dict(op="lit", s=str(sym(c)), _t=dict(kind="lit", text=c))
 
 
+# ------------------------------------------------------------------------------------------ quantity-first forms
+CAPTIONS = ["Feeeet", "some caption", "flux units", "PSIA", "m", "a b", "x"]
+
+
+def q_forms(cls, q, v, p=1):
+    """the forms that are handed a Quantity: X(q, v), X.CreateWithQuantity(q, v), X.CreateWithQuantity(q, value=v)
+    (FixedArray: dimension positional / inferred from len(values) / by keyword)"""
+    if cls == "fixed":
+        d = len(v["items"])
+        return [form(cls, q, v, dim=d, p=p), form(cls, q, v, k="cwq", p=p), form(cls, q, v, k="cwq", dimkw=d, p=p),
+                form(cls, q, v, k="cwq", kw=True, dimkw=d, p=p)]
+    return [form(cls, q, v, p=p), form(cls, q, v, k="cwq", p=p), form(cls, q, v, k="cwq", kw=True, p=p)]
+
+
+def _q_case(rng, cls, q, others=(), empty=None):
+    """all quantity-first forms of class cls on the quantity expression q and one value; next to them (not named by
+    the property: the model alone says what they give) the same forms on neighbouring quantities - the quantity
+    without its caption, with another caption, ... - whose objects must compare unequal, and the value-less form"""
+    v = _value_for(cls, rng)
+    forms = q_forms(cls, q, v)
+    if empty is not None:
+        # Scalar.CreateEmptyScalar(v) / Array.CreateEmptyArray(values) / FixedArray.CreateEmptyArray(d, values): the
+        # quantity-first forms on Quantity.CreateEmpty() (empty = 1; FractionScalar has no such method)
+        d = len(v["items"]) if cls == "fixed" else None
+        pe = 0 if cls == "fraction" else empty
+        forms += [form(cls, v, k="empty", dim=d, p=pe), form(cls, v, k="empty", dim=d, kw=True, p=pe),
+                  form(cls, None, k="empty", dim=d)]
+    for o in others:
+        forms += q_forms(cls, o, v, p=0)[:2]
+    forms.append(form(cls, q, dim=len(v["items"]) if cls == "fixed" else None))
+    return _case("qfirst", forms, want_repr=(cls == "scalar"), q=q)
+
+
+def _derived_items(ctx, rng):
+    """1-3 (category, unit, exponent) entries over distinct categories, each unit of its category's quantity type"""
+    db = ctx.db
+    items, seen = [], set()
+    for _ in range(rng.choice([1, 2, 2, 3])):
+        c = rng.choice(ctx.cats)
+        if c in seen:
+            continue
+        seen.add(c)
+        qt = db.GetCategoryInfo(c).quantity_type
+        u = rng.choice([i.unit for i in db.quantity_types[qt]])
+        items.append((c, u, rng.choice([1, 1, 2, -1, -2, 3])))
+    return items
+
+
+def quantity_cases(ctx, rng, nunits, nderived):
+    """(D) every kind of Quantity in the quantity-first forms of the four classes"""
+    db = ctx.db
+    for qt, u in rng.sample(ctx.units, min(nunits, len(ctx.units))):
+        cats = ctx.cats_of.get(qt, [])
+        if not cats:
+            continue
+        c = rng.choice(cats)
+        cap, cap2 = rng.sample(CAPTIONS, 2)
+        for cls in CLS:
+            # simple quantity with caption; its neighbours: no caption, another caption
+            yield _q_case(rng, cls, OQ(u, c, cap), [OQ(u, c), OQ(u, c, cap2)])
+            # category left to the unit's default, with caption
+            yield _q_case(rng, cls, OQ(u, None, cap), [OQ(u, None), OQ(u, c, cap)])
+        cls = rng.choice(CLS)
+        # the legacy constructor called directly: a private Quantity instance, with and without caption
+        yield _q_case(rng, cls, NQ(c, u, cap), [OQ(u, c, cap), NQ(c, u), NQ(c, None, cap)])
+        yield _q_case(rng, rng.choice(CLS), NQ(c, u), [OQ(u, c), NQ(c, u, cap)])
+        # the one-entry dict with exponent 1 is the simple quantity (with its caption)
+        yield _q_case(rng, cls, DQ([(c, u, 1)], cap), [OQ(u, c, cap), OQ(u, c), DQ([(c, u, 2)], cap)])
+        # unit given by the category (a unit that is no string), caption kept
+        yield _q_case(rng, cls, OQ(None if rng.random() < 0.5 else 3.0, c, cap), [OQ(db.GetDefaultUnit(c), c, cap)])
+    for cap in CAPTIONS + [None, ""]:
+        other = rng.choice([x for x in CAPTIONS if x != cap])
+        for cls in CLS:
+            # the unknown quantity: ObtainQuantity('<unknown>', 'Unknown', caption) and units.GetUnknownQuantity(caption)
+            if cap:
+                yield _q_case(rng, cls, OQ("<unknown>", "Unknown", cap), [UNK(cap), UNK(None), OQ("<unknown>", "Unknown", other)])
+            yield _q_case(rng, cls, UNK(cap), [OQ("<unknown>", "Unknown"), UNK(other), OQ("<unknown>", None, cap)])
+    for cls in CLS:
+        yield _q_case(rng, cls, DQ([]), [DQ([], "cap"), OQ("<unknown>", "Unknown")], empty=1)
+        yield _q_case(rng, cls, DQ([], rng.choice(CAPTIONS)), [DQ([])], empty=0)
+    for _ in range(nderived):
+        items = _derived_items(ctx, rng)
+        cap = rng.choice([None, None] + CAPTIONS)
+        others = [DQ(list(reversed(items)), cap), DQ(items, "other" if cap is None else None)]
+        if len(items) == 1:
+            others.append(OQ(items[0][1], items[0][0], cap))
+        yield _q_case(rng, rng.choice(CLS), DQ(items, cap), others)
+        # the same composition asked for as a list of (unit, exponent) pairs with a list of categories
+        kinds = [rng.choice(["list", "tuple"]) for _ in range(3)]
+        pairs, cats = [(u, e) for _c, u, e in items], [c for c, _u, _e in items]
+        yield _q_case(rng, rng.choice(CLS), OQL(pairs, cats, cap, kinds), [DQ(items, cap), DQ(items, "zz")])
+        r = rng.random()
+        if r < 0.5:
+            # fewer / more / repeated categories (zip stops at the shorter list; a repeated key keeps its place), no
+            # category at all, a single pair with exponent 1 (the simple case: unit[0][0] with category[0])
+            cats2 = rng.choice([cats[:-1], cats + [rng.choice(ctx.cats)], [cats[0]] * len(cats), [], cats[::-1]])
+            pairs2 = rng.choice([pairs, pairs[:1], [(pairs[0][0], 1)], [(pairs[0][0], 1)] + pairs[1:]])
+            v = _value_for("scalar", rng)
+            q2 = OQL(pairs2, cats2, cap, kinds)
+            yield _case("qmalformed", [form("scalar", q2, v), form("scalar", q2, v, k="cwq"),
+                                       form("array", q2, SEQ("list", [1.0, 2.0])),
+                                       form("scalar", DQ(items, cap), v)], want_repr=True)
+    # malformed: a caption that is no string, a unit the category rejects, a unit next to the quantity, a dict with an
+    # unknown category or a unit of another quantity type
+    units = [u for _qt, u in ctx.units]
+    for _ in range(max(20, nderived // 2)):
+        qt, u = rng.choice(ctx.units)
+        c = rng.choice(ctx.cats_of.get(qt) or ctx.cats)
+        cls = rng.choice(CLS)
+        v = _value_for(cls, rng)
+        d = len(v["items"]) if cls == "fixed" else None
+        w = rng.choice(units)
+        bad = rng.choice([OQ(u, c, 3.5), OQ(u, c, 2), OQ(w, c, "cap"), OQ(u, "nope", "cap"), OQ("nope", None, "cap"),
+                          DQ([(c, w, 2)], "cap"), DQ([("nope", u, 2)]), DQ([(c, u, 2)], 7), DQ([(c, u, 1)], 7),
+                          UNK(rng.choice(CAPTIONS)), NQ(c, None, "cap"), NQ(c, 3.0), NQ(None, u), NQ("nope", u), NQ(c, w),
+                          NQ(c, u, 2), NQ(2, u, 2), NQ("nope", None)])
+        yield _case("qmalformed", [form(cls, bad, v, dim=d), form(cls, bad, v, k="cwq"), form(cls, OQ(u, c, "cap"), v, u, dim=d),
+                                   form(cls, OQ(u, c, "cap"), v, k="cwq", dimkw=rng.choice([None, 0, 1, 2, 3])),
+                                   form(cls, v, OQ(u, c, "cap"), dim=d), form(cls, OQ(u, c, "cap"), OQ(u, c), dim=d),
+                                   form(cls, bad, k="empty", dim=d),
+                                   # the value twice: positionally and as value= ("Duplicated values parameter given")
+                                   form(cls, OQ(u, c, "cap"), v, rng.choice([2.5, 2.5, None, "x", 7]), k="cwq2",
+                                        dimkw=rng.choice([None, None, d, 2])),
+                                   form(cls, OQ(u, c), None, rng.choice([2.5, None, 3]), k="cwq2", dimkw=rng.choice([None, d]))],
+                    want_repr=True)
+
+
+# ------------------------------------------------------------------------------------------ histories on a private database
+class _Reg:
+    """Registration calls as plain data, in the encoding of `_reg_common.enc_reg` / `apply_reg` (shared with the `Reg`
+    engine of C14/C15).  The constructors, name pools and the random call generator are C19's own copies (taken from
+    harness/props/C14.py) so that the history stream of C19 does not move when C14's generators are extended; every
+    call they produce is one `Drivers/Ctor.lean` reads (kinds base / unit / cat with the keyword arguments below)."""
+    TYPES = ["length", "time", "x"]
+    SYMS = ["m", "cm", "lbmol", "s", "lbmole"]
+    CATS = ["length", "depth", "c per d", "time"]
+
+    @staticmethod
+    def _base(qt, u):
+        return dict(k="base", qt=qt, name="name of %s" % u, unit=u)
+
+    @staticmethod
+    def _unit(qt, u, fb=None, tb=None, dc=None):
+        import _reg_common as rc
+
+        f = rc.form_of(u) if isinstance(u, str) else ("x", "x")
+        return dict(k="unit", qt=qt, name="n%s" % u, unit=u, fb=f[0] if fb is None else fb, tb=f[1] if tb is None else tb, dc=dc)
+
+    @staticmethod
+    def _cat(c, qt=None, **kw):
+        if qt is not None:
+            kw["quantity_type"] = qt
+        return dict(k="cat", c=c, kw=kw)
+
+    @staticmethod
+    def _show_op(o):
+        if o["k"] == "base":
+            return "AddUnitBase(%r, %r, %r)" % (o["qt"], o["name"], o["unit"])
+        if o["k"] == "unit":
+            return "AddUnit(%r, %r, %r, %r, %r, default_category=%r)" % (o["qt"], o["name"], o["unit"], o["fb"], o["tb"], o.get("dc"))
+        return "AddCategory(%r, %s)" % (o["c"], ", ".join("%s=%r" % kv for kv in sorted(o["kw"].items())))
+
+    @staticmethod
+    def _rnd_op(rng):
+        import _reg_common as rc
+
+        TYPES, SYMS, CATS, BAD, NO_X, SYNTAX = _Reg.TYPES, _Reg.SYMS, _Reg.CATS, rc.BAD, rc.NO_X, rc.SYNTAX
+        _base, _unit, _cat = _Reg._base, _Reg._unit, _Reg._cat
+        k = rng.choice(["base", "unit", "unit", "cat", "cat", "cat"])
+        types = TYPES + ["Unknown"]
+        syms = SYMS + ["Mcf", "1000ft3", "<unknown>", "degC", "km"]
+        cats = CATS + ["Unknown", ""]
+        if k == "base":
+            qt = rng.choice(types) if rng.random() < 0.94 else rng.choice([None, BAD])
+            u = rng.choice(syms) if rng.random() < 0.95 else rng.choice([None, BAD])
+            return _base(qt, u)
+        if k == "unit":
+            qt = rng.choice(types) if rng.random() < 0.94 else rng.choice([None, BAD])
+            u = rng.choice(syms) if rng.random() < 0.95 else rng.choice([None, BAD])
+            op = _unit(qt, u, dc=rng.choice([None, None, "", "depth", "nope", "length"]))
+            r = rng.random()
+            if r < 0.06:
+                op["fb"] = rng.choice([NO_X, SYNTAX])
+            elif r < 0.12:
+                op["tb"] = rng.choice([NO_X, SYNTAX])
+            elif r < 0.15:
+                op["fb"], op["tb"] = SYNTAX, NO_X
+            return op
+        kw = {}
+        if rng.random() < 0.4:
+            kw["valid_units"] = rng.sample(syms, rng.randint(0, 3))
+        if rng.random() < 0.3:
+            kw["default_unit"] = rng.choice(syms)
+        if rng.random() < 0.35:
+            kw["override"] = True
+        if rng.random() < 0.3:
+            kw["min_value"] = rng.choice([0.0, 5.0, -1.5])
+        if rng.random() < 0.3:
+            kw["max_value"] = rng.choice([1.0, 10.0, 5.0])
+        if rng.random() < 0.15:
+            kw["is_min_exclusive"] = True
+        if rng.random() < 0.15:
+            kw["is_max_exclusive"] = True
+        if rng.random() < 0.3:
+            kw["default_value"] = rng.choice([0.0, 1.0, 5.0, 20.0, 7.25])
+        if rng.random() < 0.15:
+            kw["caption"] = rng.choice(["Cap", ""])
+        c = rng.choice(cats) if rng.random() < 0.96 else rng.choice([None, BAD])
+        r = rng.random()
+        if r < 0.25:
+            kw["from_category"] = rng.choice(cats)
+            return _cat(c, rng.choice(types) if rng.random() < 0.1 else None, **kw)
+        if r < 0.3:
+            return _cat(c, None, **kw)
+        return _cat(c, rng.choice(types + ["nope", ""]) if rng.random() < 0.9 else rng.choice(cats), **kw)
+
+
+def _reg():
+    return _Reg
+
+
+def H_defcat(u):
+    return dict(q="defcat", u=u)
+
+
+def H_group(cls, u, c, v=None, extra=()):
+    """all forms of class cls for unit u and category c (the oracle asks a fresh database whether c is u's default
+    category at that point of the history)"""
+    return dict(q="forms", cls=cls, u=u, c=c, v=v, extra=list(extra))
+
+
+def _group_forms(g, rng):
+    cls, u, c = g["cls"], g["u"], g["c"]
+    v = g.get("v")
+    if v is None:
+        v = _value_for(cls, rng)
+    forms = unit_forms(cls, u, c, v, True)
+    if cls in ("array", "fixed"):
+        forms.append(form(cls, OQ(u, None), v, dim=len(v["items"]) if cls == "fixed" else None, p=1))
+    return forms + list(g.get("extra") or [])
+
+
+def _hist(ops, rng, tag):
+    """ops: registration dicts (C14), H_defcat, H_group -> one case; the whole history is one line for the driver"""
+    import _reg_common as rc
+
+    steps, tsteps = [], []
+    for o in ops:
+        if o.get("q") == "defcat":
+            steps.append(dict(q="defcat", unit=str(sym(o["u"]))))
+            tsteps.append(dict(q="defcat", u=o["u"]))
+        elif o.get("q") == "forms":
+            steps.append(dict(q="forms", forms=_group_forms(o, rng), repr=(o["cls"] == "scalar")))
+            tsteps.append(dict(q="forms", u=o["u"], c=o["c"], cls=o["cls"]))
+        else:
+            steps.append(rc.enc_reg(o))
+            tsteps.append(o)
+    return dict(op="hist", steps=steps, _t=dict(kind="hist", tag=tag, steps=tsteps))
+
+
+def _h_prefixes():
+    reg = _reg()
+    p1 = [reg._base("length", "m"), reg._unit("length", "cm")]
+    return p1, p1 + [reg._cat("length", "length")]
+
+
+def _h_alphabet():
+    reg = _reg()
+    return [
+        H_defcat("cm"),                                     # 0  a question about a unit whose category may not exist yet
+        reg._cat("length", "length"),                       # 1  the category named after the quantity type
+        H_group("scalar", "cm", "length"),                  # 2  all forms (fail before 1, build after)
+        H_defcat("km"),                                     # 3  a question about a unit that may not exist yet
+        reg._unit("length", "km"),                          # 4
+        H_group("array", "km", "length"),                   # 5
+        reg._cat("depth", "length"),                        # 6
+        H_group("fraction", "m", "length"),                 # 7
+        reg._unit("length", "lbmol", dc="depth"),           # 8  a unit with an explicit default category
+        H_group("fixed", "lbmol", "depth"),                 # 9
+        H_group("scalar", "lbmole", "depth"),               # 10 the legacy spelling of 8
+        H_defcat("lbmol"),                                  # 11
+        reg._cat("length", "length", override=True, valid_units=["m", "km"], default_unit="m"),   # 12 cm no longer accepted
+    ]
+
+
+def _h_exhaustive(rng, prefixes, depth, idxs=None):
+    import itertools
+
+    alpha = _h_alphabet()
+    idxs = list(range(len(alpha))) if idxs is None else idxs
+    for pre in prefixes:
+        for d in range(1, depth + 1):
+            for combo in itertools.product(idxs, repeat=d):
+                if not any(alpha[i].get("q") == "forms" for i in combo):
+                    continue    # no construction at all: C14/C15 look at those
+                yield _hist(pre + [alpha[i] for i in combo], rng, "exhaustive")
+
+
+def _h_random(rng, n, maxlen):
+    reg = _reg()
+    types = reg.TYPES
+    syms = reg.SYMS + ["km", "Mcf", "1000ft3", "<unknown>"]
+    cats = reg.CATS + ["Unknown", "x"]
+    p1, p2 = _h_prefixes()
+    rich = p1 + [reg._base("time", "s"), reg._unit("time", "min"), reg._base("x", "lbmol"),
+                 reg._base("Unknown", "<unknown>"), reg._cat("Unknown", "Unknown")]
+    for _ in range(n):
+        r = rng.random()
+        ops = list(p1) if r < 0.3 else [o for o in rich if rng.random() < 0.8] if r < 0.8 else []
+        for _ in range(rng.randint(3, maxlen)):
+            regd = [o["unit"] for o in ops if "q" not in o and o["k"] in ("base", "unit") and isinstance(o["unit"], str)]
+            r = rng.random()
+            u = rng.choice(regd) if regd and rng.random() < 0.7 else rng.choice(syms)
+            if r < 0.2:
+                ops.append(H_defcat(u))
+            elif r < 0.3 and ops:
+                ops.append(dict(rng.choice(ops)))            # an earlier step again
+            elif r < 0.45:
+                # the category named after a quantity type, or a unit, arrives late
+                qt = rng.choice(types)
+                ops.append(rng.choice([reg._cat(qt, qt), reg._cat(rng.choice(cats), qt), reg._unit(qt, u),
+                                       reg._unit(qt, u, dc=rng.choice(cats)), reg._base(qt, u)]))
+            elif r < 0.6:
+                ops.append(reg._rnd_op(rng))
+            else:
+                cls = rng.choice(CLS)
+                # mostly the category named after the quantity type the unit was registered under
+                own = [o["qt"] for o in ops if "q" not in o and o["k"] in ("base", "unit") and o["unit"] == u
+                       and isinstance(o["qt"], str)]
+                c = rng.choice(own) if own and rng.random() < 0.6 else rng.choice(cats + types)
+                extra = []
+                v = _value_for(cls, rng)     # one value for the whole group
+                if rng.random() < 0.3:
+                    cap = rng.choice(CAPTIONS)
+                    extra = [f for f in q_forms(cls, OQ(u, rng.choice([c, None]), cap), v, p=0)[:2]]
+                    if rng.random() < 0.3:
+                        extra += q_forms(cls, rng.choice([DQ([]), DQ([(c, u, 2)], cap), UNK(cap)]), v, p=0)[:2]
+                ops.append(H_group(cls, u, c, v=v, extra=extra))
+        yield _hist(ops, rng, "random")
+
+
+def history_cases(ctx, rng, tier):
+    p1, p2 = _h_prefixes()
+    core = [0, 1, 2, 3, 4, 5, 6, 10]
+    if tier == "quick":
+        yield from _h_exhaustive(rng, (p1, p2), 2)
+        yield from _h_exhaustive(rng, (p1,), 3)
+        yield from _h_exhaustive(rng, (p2,), 3, core)
+        yield from _h_random(rng, 600, 14)
+    else:
+        yield from _h_exhaustive(rng, (p1, p2), 3)
+        yield from _h_exhaustive(rng, (p1,), 4, core)
+        yield from _h_random(rng, 6000, 18)
+
+
+
 def cases(ctx):
     rng = ctx.fresh_rng("C19corr")
     units = list(ctx.units)
@@ -597,6 +999,8 @@ def cases(ctx):
     yield from category_cases(ctx, rng, 1 if ctx.tier == "quick" else 3)
     yield from malformed_cases(ctx, ctx.fresh_rng("C19bad"), 1500 if ctx.tier == "quick" else 15000)
     yield from lit_cases(ctx, ctx.fresh_rng("C19lit"), 300 if ctx.tier == "quick" else 3000)
+    yield from quantity_cases(ctx, ctx.fresh_rng("C19qty"), *((80, 150) if ctx.tier == "quick" else (len(ctx.units), 3000)))
+    yield from history_cases(ctx, ctx.fresh_rng("C19hist"), ctx.tier)
     for _qt, u in ctx.units:
         yield dict(op="defcat", unit=str(sym(u)), _t=dict(kind="defcat", unit=u))
     for u in _legacy_spellings(ctx) + ["nope", "", "1000ft3xyz"]:
@@ -642,6 +1046,14 @@ def _show_arg(j):
         return "ObtainQuantity(OrderedDict([%s])%s)" % (items, cap)
     if isinstance(j, dict) and "unk" in j:
         return "GetUnknownQuantity(%s)" % ("" if j["unk"] is None else repr(_show_atom(j["unk"])))
+    if isinstance(j, dict) and "nq" in j:
+        return "Quantity(%s)" % ", ".join(repr(_show_atom(i)) for i in j["nq"])
+    if isinstance(j, dict) and "oql" in j:
+        box = {"list": list, "tuple": tuple}
+        ku, kp, kc = j.get("kinds", ["list", "tuple", "list"])
+        unit = box[ku](box[kp]((unsym(int(u)), int(e))) for u, e in j["oql"])
+        cap = "" if j.get("cap") is None else ", %r" % (_show_atom(j["cap"]),)
+        return "ObtainQuantity(%r, %r%s)" % (unit, box[kc](unsym(int(c)) for c in j["cats"]), cap)
     return repr(_show_atom(j))
 
 
@@ -653,6 +1065,9 @@ def show_form(f):
         kwn = "value=" if f["cls"] in ("scalar", "fraction") else "values="
         pre = "%s, " % f.get("dim", 0) if f["cls"] == "fixed" else ""
         return "%s.%s(%s%s%s)" % (name, meth, pre, kwn if f.get("kw") else "", args[0])
+    if f["k"] == "cwq2":
+        extra = ", dimension=%s" % f["dimkw"] if f.get("dimkw") is not None else ""
+        return "%s.CreateWithQuantity(%s, %s, value=%s%s)" % (name, args[0], args[1], args[2], extra)
     if f["k"] == "cwq":
         extra = ", dimension=%s" % f["dimkw"] if f.get("dimkw") is not None else ""
         return "%s.CreateWithQuantity(%s, %s%s%s)" % (name, args[0], "value=" if f.get("kw") else "", args[1], extra)
@@ -667,9 +1082,20 @@ def show_form(f):
     return "%s(%s)" % (name, ", ".join(args))
 
 
+def _show_step(st, t):
+    if st.get("q") == "defcat":
+        return "GetDefaultCategory(%r)" % (t["u"],)
+    if st.get("q") == "forms":
+        return [show_form(f) for f in st["forms"]]
+    return _reg()._show_op(t)
+
+
 def show(c):
     if c["op"] == "forms":
         return dict(kind=c["_t"].get("kind"), forms=[show_form(f) for f in c["forms"]])
+    if c["op"] == "hist":
+        return dict(kind="hist", on="a private UnitDatabase()",
+                    steps=[_show_step(st, t) for st, t in zip(c["steps"], c["_t"]["steps"])])
     return dict(c["_t"])
 
 
@@ -715,8 +1141,46 @@ def impl(c, ctx):
         except Exception as e:  # noqa
             return dict(err=err_kind(e))
         return dict(ok=None if r is None else str(sym(r)))
+    if c["op"] == "hist":
+        return dict(outs=run_history(c, ctx.notes["form_results"]))
+    return run_forms(c, ctx.notes["form_results"])
+
+
+def run_history(c, fr=None, upto=None, judge=None):
+    """The history on a fresh private UnitDatabase() (the singleton while it runs): one outcome per step.
+    `judge(i, db)` (oracle only) is called after step i, on the database as the history left it."""
+    import _reg_common as rc
+    from barril.units.unit_database import UnitDatabase
+
+    fr = {} if fr is None else fr
+    db = UnitDatabase()
+    outs = []
+    UnitDatabase.PushSingleton(db)
+    try:
+        for i, (st, t) in enumerate(zip(c["steps"], c["_t"]["steps"])):
+            if upto is not None and i >= upto:
+                break
+            if st.get("q") == "defcat":
+                try:
+                    r = db.GetDefaultCategory(t["u"])
+                    outs.append(dict(ok=None if r is None else str(sym(r))))
+                except Exception as e:  # noqa
+                    outs.append(dict(err=err_kind(e)))
+            elif st.get("q") == "forms":
+                outs.append(run_forms(st, fr))
+            else:
+                outs.append(rc.apply_reg(db, t))
+            if judge is not None:
+                f = judge(i, db)
+                if f:
+                    return f
+    finally:
+        UnitDatabase.PopSingleton()
+    return None if judge is not None else outs
+
+
+def run_forms(c, fr):
     objs, res = [], []
-    fr = ctx.notes["form_results"]
     for f in c["forms"]:
         o, e = try_build(f)
         objs.append(o)
@@ -731,7 +1195,7 @@ def impl(c, ctx):
                 res.append(dict(err="other", detail="canon: %r" % (ex,)))
                 objs[-1] = None
                 key = "other"
-        k2 = "%s:%s" % (f["cls"] if f["k"] == "ctor" else f["cls"] + ".cwq", key)
+        k2 = "%s:%s" % (f["cls"] if f["k"] == "ctor" else f["cls"] + "." + f["k"], key)
         fr[k2] = fr.get(k2, 0) + 1
     ref = next((o for o in objs if o is not None), None)
     eqs = [None if o is None else [py_eq(o, ref), py_eq(ref, o)] for o in objs]
@@ -766,7 +1230,26 @@ def _obj_agree(io, mo, m):
 
 
 def agree(c, io, mo, ctx):
-    if c["op"] in ("lit", "defcat"):
+    if c["op"] == "hist":
+        import _reg_common as rc
+
+        if len(io["outs"]) != len(mo.get("outs", [])):
+            return "different number of steps"
+        for i, (st, a, b) in enumerate(zip(c["steps"], io["outs"], mo["outs"])):
+            if st.get("q") == "defcat":
+                why = None if a == b else "impl=%r model=%r" % (a, b)
+            elif st.get("q") == "forms":
+                why = agree_forms(st, a, b)
+            else:
+                why = rc.cmp_reg_out(a, b)
+            if why:
+                return "step %d (%s): %s" % (i, str(_show_step(st, c["_t"]["steps"][i]))[:200], why)
+        return None
+    return agree_forms(c, io, mo)
+
+
+def agree_forms(c, io, mo):
+    if c.get("op") in ("lit", "defcat"):
         if c["op"] == "lit" and mo.get("ok") is False and io.get("ok") is True:
             s = c["_t"]["text"]
             # a backslash that starts no escape sequence is kept by Python's parser: the model claims nothing there
@@ -820,6 +1303,17 @@ def agree(c, io, mo, ctx):
 
 
 def nontrivial(c, io):
+    if c["op"] == "hist":
+        # a group in which objects were built, after a registration that follows a question or a group
+        asked = registered = False
+        for st, o in zip(c["steps"], io["outs"]):
+            if "q" in st:
+                if registered and st["q"] == "forms" and sum(1 for r in o["res"] if "ok" in r) >= 2:
+                    return True
+                asked = True
+            elif asked and "ok" in o:
+                registered = True
+        return False
     if c["op"] != "forms":
         return c["op"] == "defcat" and io.get("ok") is not None
     return sum(1 for r in io["res"] if "ok" in r) >= 2
@@ -827,6 +1321,8 @@ def nontrivial(c, io):
 
 # ------------------------------------------------------------------------------------------ the property, real code only
 def oracle(c, ctx):
+    if c.get("op") == "hist":
+        return oracle_history(c)
     if c.get("op") != "forms":
         return None
     t = c["_t"]
@@ -835,42 +1331,147 @@ def oracle(c, ctx):
         # the property speaks about the unit's default category
         if ctx.db.GetDefaultCategory(t["unit"]) != t["category"]:
             return None
+    elif kind == "qfirst":
+        return oracle_quantity(c)
     elif kind != "catonly":
         return None
+    return judge_forms(c, kind)
+
+
+def judge_forms(c, kind, where=None):
+    """the forms the property names (p) build, and build equal objects (both directions of ==); eval(repr) of the
+    Scalars with a simple quantity without caption gives an equal Scalar"""
     named = [f for f in c["forms"] if f.get("p")]
+    if not named:
+        return None
+    extra = dict(where) if where else {}
     objs = []
     for f in named:
         try:
             objs.append(build(f))
         except Exception as e:  # noqa
-            return dict(clause="a documented construction form raises", form=show_form(f), error=repr(e)[:300])
+            return dict(extra, clause="a documented construction form raises", form=show_form(f), error=repr(e)[:300])
     ref = objs[0]
     for f, o in zip(named[1:], objs[1:]):
         try:
             ok = bool(o == ref) and bool(ref == o) and not (o != ref)
         except Exception as e:  # noqa
-            return dict(clause="== between two construction forms raises", a=show_form(named[0]), b=show_form(f), error=repr(e)[:300])
+            return dict(extra, clause="== between two construction forms raises", a=show_form(named[0]), b=show_form(f),
+                        error=repr(e)[:300])
         if not ok:
-            return dict(clause="equivalent construction forms build different objects" if kind == "unit" else
-                        "category-only object differs from (default value, default unit, category)",
-                        a=show_form(named[0]), b=show_form(f), got_a=repr(ref), got_b=repr(o))
+            return dict(extra, clause="category-only object differs from (default value, default unit, category)"
+                        if kind == "catonly" else "equivalent construction forms build different objects",
+                        a=show_form(named[0]), b=show_form(f), got_a=repr(ref), got_b=repr(o),
+                        quantity_a=_describe_q(ref), quantity_b=_describe_q(o))
     if c.get("repr"):
         from barril.units import Scalar
 
         for f, o in zip(named, objs):
-            if type(o) is Scalar:
+            q = o.GetQuantity()
+            if type(o) is Scalar and not q.IsDerived() and not q.GetUnknownCaption():
                 try:
                     back = eval(repr(o), {"Scalar": Scalar})
                     ok = bool(back == o)
                 except Exception as e:  # noqa
-                    return dict(clause="eval(repr(scalar)) raises", form=show_form(f), repr=repr(o), error=repr(e)[:300])
+                    return dict(extra, clause="eval(repr(scalar)) raises", form=show_form(f), repr=repr(o), error=repr(e)[:300])
                 if not ok:
-                    return dict(clause="eval(repr(scalar)) != scalar", form=show_form(f), repr=repr(o), back=repr(back))
+                    return dict(extra, clause="eval(repr(scalar)) != scalar", form=show_form(f), repr=repr(o), back=repr(back))
     return None
+
+
+def _describe_q(o):
+    try:
+        q = o.GetQuantity()
+        return dict(category=q.GetCategory(), unit=q.GetUnit(), caption=q.GetUnknownCaption(),
+                    composing=[[k, v[0], int(v[1])] for k, v in q.GetCategoryToUnitAndExps().items()])
+    except Exception as e:  # noqa
+        return repr(e)[:100]
+
+
+def oracle_quantity(c):
+    """X(q, v), X.CreateWithQuantity(q, v) (and the CreateEmpty... methods on the empty quantity) build equal objects
+    that hold exactly the quantity they were given (category, unit, composing map AND caption).  Judged only when the
+    quantity expression itself evaluates."""
+    try:
+        q = py_arg(c["_t"]["q"])
+    except Exception:  # noqa
+        return None
+    f = judge_forms(c, "qfirst")
+    if f:
+        return f
+    for fm in [x for x in c["forms"] if x.get("p")]:
+        got = build(fm).GetQuantity()
+        same = (got == q) and (q == got) and not (got != q) and got.GetUnknownCaption() == q.GetUnknownCaption() \
+            and got.GetUnit() == q.GetUnit() and got.GetCategory() == q.GetCategory() \
+            and got.GetCategoryToUnitAndExps() == q.GetCategoryToUnitAndExps()
+        if not same:
+            return dict(clause="the object does not hold the quantity it was built from", form=show_form(fm),
+                        given=dict(category=q.GetCategory(), unit=q.GetUnit(), caption=q.GetUnknownCaption()),
+                        holds=dict(category=got.GetCategory(), unit=got.GetUnit(), caption=got.GetUnknownCaption()))
+    return None
+
+
+def fresh_default_category(c, upto, u):
+    """GetDefaultCategory(u) on a NEW private database that received only the registrations of the first `upto`
+    steps (no question was ever asked there); "<raises>" if that raises"""
+    import _reg_common as rc
+    from barril.units.unit_database import UnitDatabase
+
+    db = UnitDatabase()
+    UnitDatabase.PushSingleton(db)
+    try:
+        for st, t in list(zip(c["steps"], c["_t"]["steps"]))[:upto]:
+            if "q" not in st:
+                rc.apply_reg(db, t)
+        try:
+            return db.GetDefaultCategory(u)
+        except Exception:  # noqa
+            return "<raises>"
+    finally:
+        UnitDatabase.PopSingleton()
+
+
+def oracle_history(c):
+    """The property in every reachable state: at a group of forms for (u, c) the registrations made so far decide
+    whether c is u's default category and whether Quantity(c, u) exists (asked of a new database that received the
+    same registrations and nothing else); if so, all documented forms must build equal objects on the database the
+    history produced, whatever was asked or tried before."""
+    from barril.units import ObtainQuantity
+    from barril.units.unit_database import UnitDatabase
+
+    def judge(i, db):
+        st, t = c["steps"][i], c["_t"]["steps"][i]
+        if st.get("q") != "forms":
+            return None
+        dc = fresh_default_category(c, i, t["u"])
+        if not dc or dc != t["c"]:
+            return None
+        fresh = UnitDatabase()
+        import _reg_common as rc
+
+        UnitDatabase.PushSingleton(fresh)
+        try:
+            for st2, t2 in list(zip(c["steps"], c["_t"]["steps"]))[:i]:
+                if "q" not in st2:
+                    rc.apply_reg(fresh, t2)
+            try:
+                ObtainQuantity(t["u"], t["c"])
+            except Exception:  # noqa
+                return None     # the category does not accept the unit: no object of (c, u) exists at all
+        finally:
+            UnitDatabase.PopSingleton()
+        return judge_forms(st, "unit", where=dict(
+            step=i, unit=t["u"], category=t["c"],
+            history=[_show_step(a, b) if a.get("q") != "forms" else "forms for (%r, %r)" % (b["u"], b["c"])
+                     for a, b in list(zip(c["steps"], c["_t"]["steps"]))[:i]]))
+
+    return run_history(c, judge=judge)
 
 
 def shrink(case, failure, ctx):
     """keep only the documented forms the failure is about (first the pair it names, then single forms)"""
+    if case.get("op") == "hist":
+        return shrink_history(case, failure)
     if case.get("op") != "forms":
         return case, failure
     named = [f for f in case["forms"] if f.get("p")]
@@ -890,6 +1491,31 @@ def shrink(case, failure, ctx):
         if f2:
             return c2, f2
     return case, failure
+
+
+def shrink_history(case, failure):
+    """cut the history after the failing group, then drop steps one at a time while the oracle still fails"""
+    def sub(keep):
+        return dict(case, steps=[case["steps"][i] for i in keep],
+                    _t=dict(case["_t"], steps=[case["_t"]["steps"][i] for i in keep]))
+
+    keep = list(range(len(case["steps"])))
+    if isinstance(failure.get("step"), int):
+        keep = keep[:failure["step"] + 1]
+    best = failure
+    changed = True
+    while changed:
+        changed = False
+        for i in list(keep[:-1]):
+            trial = [k for k in keep if k != i]
+            try:
+                f2 = oracle_history(sub(trial))
+            except Exception:  # noqa
+                f2 = None
+            if f2:
+                keep, best, changed = trial, f2, True
+                break
+    return sub(keep), best
 
 
 def table_candidates(ctx):
@@ -916,5 +1542,33 @@ def search(ctx):
     yield from special_cases(ctx, rng, 12)
     yield from rows_cases(ctx, rng, 12)
     yield from category_cases(ctx, rng, 0)
+    yield from quantity_cases(ctx, rng, 30, 40)
+    yield from history_cases(ctx, rng, "quick")
     yield from unit_cases(ctx, ctx.units, rng, 1, only_default=True)
     yield from unit_cases(ctx, ctx.units, rng, 2, only_default=True)
+
+
+# ---------------------------------------------------------------------------------------------- known findings
+CLASS_REPR_CAPTION = "scalar-repr: the quantity carries an unknown-unit caption"
+
+
+def matches_known(entry, case, failure):
+    """captioned quantities are outside the repr clause of the oracle (see `oracle`), so nothing the search can
+    report belongs to this class"""
+    return False
+
+
+def replay_finding(entry, ctx):
+    if (entry.get("matcher") or {}).get("class") != CLASS_REPR_CAPTION:
+        return None
+    import barril.units as units  # noqa: F401  (names used by eval)
+    from barril.units import ObtainQuantity, Scalar  # noqa: F401
+
+    rc = entry.get("replay_case") or {}
+    s = Scalar(ObtainQuantity(rc.get("unit", "m"), rc.get("category", "length"), rc.get("caption", "some caption")),
+               rc.get("value", 1.0))
+    try:
+        back = eval(repr(s), {"Scalar": Scalar})
+    except Exception as e:  # noqa: BLE001
+        return dict(clause="repr round trip", raised=repr(e))
+    return dict(clause="repr round trip", repr=repr(s), **{"class": CLASS_REPR_CAPTION}) if back != s else None
